@@ -14,8 +14,10 @@ LOG_LEVEL_INVARIANT = True
 RUN_MODULE = "RunC12"
 DRIVER = "async_driver.py"
 SHARD = 120
-RULE = ("one case = one workload (1-3 producers, set_data/add_metadata/save on 1-3 recordings, failing storage calls; short: "
-        "up to 18 requests, or a long history: 10^2 .. 5*10^3 requests in the quick tier, up to 1.2*10^4 in the thorough tier) "
+RULE = ("one case = one workload (1-3 producers, set_data/add_metadata/save/abort_recording on 1-3 recordings, failing storage "
+        "calls; short: up to 18 requests, or a long history: 10^2 .. 5*10^3 requests in the quick tier, up to 1.2*10^4 in the "
+        "thorough tier, plus one (thorough: three) history of > 10^4 (2^14, 2^15) requests that arrives while the flusher is "
+        "stalled inside a storage call - every request has to return without the flusher moving) "
         "under one schedule (token schedule: producers' requests interleaved with the flusher's atomic steps) or under a "
         "family of schedules explored by the driver (bounded-preemption exhaustive or seeded random, at atomic or source-line "
         "granularity; the evidence counts such a case once, its schedules are in input_distribution as runs:*); "
@@ -27,7 +29,10 @@ RULE = ("one case = one workload (1-3 producers, set_data/add_metadata/save on 1
         "(0, False, 0.0, -0.0; 1, True, 1.0), containers that compare equal ([0] / [False], {a: 1} / {a: True}), empty "
         "str / list / dict / tuple, the same value written again - stored values are compared with their types, in the "
         "direct predicate and in Coq (val := pyval); input_distribution shows value:*, same-value-written-again, "
-        "overwritten-by-==-value-of-other-type, None-written-to-new-key; "
+        "overwritten-by-==-value-of-other-type, None-written-to-new-key; an abort stream (recordings ended by save, by "
+        "abort_recording, by both in either order, by another caller: exhaustive token schedules of 7 small workloads, "
+        "random workloads, explorations; input_distribution shows abort-after-save / save-after-abort / "
+        "abort-instead-of-save / abort-with-other-callers); "
         "non-trivial = at least two requests; distinct = distinct (workload, schedule)")
 EXHAUSTIVE = {"quick": True, "thorough": True}
 ASSUMPTIONS = [
@@ -35,11 +40,17 @@ ASSUMPTIONS = [
     "that every access to _recording_operation_buffer outside __init__ is lexically inside `with self._lock:`)",
     "join(timeout_on_close) does not expire before the flusher finishes (the scheduled join never times out; with real "
     "storage a backlog of thousands of operations can take longer than timeout_on_close - runtime, not checked)",
-    "history length: the theorems have no bound; the runs cover backlogs at close() up to ~4.9k requests (quick) / ~12k "
-    "(thorough), chosen to straddle 100, 256, 1000, 1024, 2048, 4096, 10000 - a size-dependent change that only shows "
-    "beyond that is not exercised",
+    "history length: the theorems have no bound; the runs cover backlogs at close() up to ~11k requests (quick) / ~34k "
+    "(thorough), chosen to straddle 100, 256, 1000, 1024, 2048, 4096, 10000 (thorough: 16384, 32768) - a size-dependent "
+    "change that only shows beyond that is not exercised; histories > 4000 requests (quick) are implementation-only",
+    "waiting callers: a request counts as waiting for the storage when, with the flusher held inside a storage call, it "
+    "blocks on a scheduled primitive (Lock / Condition / Semaphore of the module under test) or passes more than 400 "
+    "yield points without returning; a wait implemented by time.sleep polling or by a primitive that is not substituted "
+    "ends in the wall-clock watchdogs (hang) instead",
+    "abort_recording: the closed flag of an aborted wrapped recording OBJECT is not compared (synchronously the wrapped "
+    "recording is closed, asynchronously the AsyncRecording in front of it); its contents and everything stored are",
     "wrapped storage failures are Exceptions (a BaseException would end the flusher thread)",
-    "requests are issued through set_data / add_metadata / save_recording (Recording.__setitem__ bypasses the closed "
+    "requests are issued through set_data / add_metadata / save_recording / abort_recording (Recording.__setitem__ bypasses the closed "
     "check of the AsyncRecording and is outside the modelled request alphabet)",
     "values are never mutated by the caller after the call: the model's values are immutable trees (pyval: None, bool, "
     "int, float, str, list, tuple, dict - with their types), the in-memory recording keeps references in both "
@@ -52,7 +63,8 @@ ASSUMPTIONS = [
     "does not reach the wrapped cassette (the property says every write is applied exactly once), even though the "
     "stored recording would be the same"]
 TRUSTED = ["cooperative scheduler of the driver (one OS thread per logical thread, exactly one running; Thread/Lock/Event "
-           "of the module under test substituted as module attributes; sys.settrace line stepping)",
+           "of the module under test substituted as module attributes, Condition / Semaphore / BoundedSemaphore too if it "
+           "imports them; sys.settrace line stepping)",
            "spy subclass of the real InMemoryTapeCassette / MemoryRecording as wrapped storage",
            "trace projection: flusher lock acquire/release = CLock/CSwap, first lock acquisition inside a producer call = "
            "CProduce, spy call entry on the flusher = CExec"]
@@ -60,7 +72,7 @@ THEOREMS = ["C12_inv_init", "C12_inv_step", "C12_inv_reachable", "C12_async_refi
             "C12_argument_alias_repaired", "C12_schedule_independent",
             "C12_single_producer", "C12_failure_does_not_block", "C12_producers_never_blocked",
             "C12_not_blocked_during_storage", "C12_progress", "C12_progress_every_step", "C12_progress_enabled",
-            "C12_runner_sound"]
+            "C12_runner_sound", "C12_abort_never_blocked", "C12_abort_not_seen_by_wrapped", "C12_abort_sync_saved"]
 
 _FAILING = {}     # case key -> explicit failing schedule (filled by direct, used by shrink_candidates)
 _BACKLOG = {}     # case key -> (requests pending at close, largest batch) of token cases (filled by direct, used by features)
@@ -105,6 +117,11 @@ def op_save(rec, fail=0):
     return d
 
 
+def op_abort(rec):
+    """cassette.abort_recording(recording): closes the recording it is given, stores nothing (tape_cassette.py:52-59)"""
+    return dict(rec=rec, k="abort")
+
+
 def vkey(v):
     """hashable, type-exact form of a workload value (plain int, or tagged value of lib.pyvals)"""
     return v if type(v) is int else json.dumps(v, sort_keys=True)
@@ -115,8 +132,8 @@ def op_class(op):
     item, as the driver's spy does).  Requests of one class are interchangeable there."""
     if op["k"] == "set":
         return (op["rec"], "set", op["key"], vkey(op["val"]))
-    if op["k"] == "save":
-        return (op["rec"], "save")
+    if op["k"] in ("save", "abort"):
+        return (op["rec"], op["k"])
     return (op["rec"], "meta") + tuple((k, vkey(v)) for k, v in op["items"][:1])
 
 
@@ -302,6 +319,9 @@ def long_tokens(rng, work, shape):
     elif shape == "slow-storage":           # the flusher picked up the first few requests and is inside a storage call
         k = rng.randrange(1, 6)
         toks = seq[:k] + [["F"]] * rng.randrange(4, k + 5) + seq[k:]
+    elif shape == "stalled-storage":        # the same, the flusher certainly INSIDE one of the first k storage calls (and
+        k = rng.randrange(1, 6)             # it stays there until close(): the storage has stalled)
+        toks = seq[:k] + [["F"]] * (4 + rng.randrange(k)) + seq[k:]
     elif shape == "flushed-midway":         # one flush in the middle: a big batch (complete, or still running while
         k = rng.randrange(n // 5, n // 2)   # the rest arrives), then a big backlog at close()
         nf = k + 8 if rng.random() < 0.5 else rng.randrange(4, k)
@@ -507,6 +527,71 @@ def shape_walks(rng, quick):
     return out
 
 
+# --------------------------------------------------------------------------------------------------
+# abort_recording: the third way a recording ends (tape_cassette.py:52-59).  The wrapper does not override it: it closes
+# the AsyncRecording and enqueues nothing; what was requested before - writes and a save - still has to be applied.
+# --------------------------------------------------------------------------------------------------
+W_AB_AFTER = [[op_set(0, 0, 0, 0), op_save(0), op_abort(0)]]                              # try: save .. finally: abort
+W_AB_BEFORE = [[op_set(0, 0, 0, 0), op_abort(0), op_save(0)]]
+W_AB_ONLY = [[op_set(0, 0, 0, 0), op_meta(0, [0], 0, 1), op_abort(0)]]
+W_AB_TWICE = [[op_set(0, 0, 0, 0), op_abort(0), op_set(0, 1, 0, 2), op_abort(0)]]         # write after abort: refused
+W_AB_OTHER = [[op_set(0, 0, 0, 0), op_save(0)], [op_abort(0)]]                            # aborted by another caller
+W_AB_THREE = [[op_set(0, 0, 0, 0), op_set(1, 0, 0, 1), op_set(2, 0, 0, 2), op_save(0), op_abort(0), op_abort(1), op_save(2)]]
+W_AB_MIX = [[op_set(0, 0, 0, 0), op_save(0), op_abort(0)], [op_set(1, 0, 1, 0), op_abort(1), op_set(0, 1, 1, 2)]]
+
+
+def rand_abort_work(rng, nprod, max_ops, nrec, pfail=0.1, after=0.15):
+    """random workloads whose recordings end by save, by abort, by both in either order, or not at all"""
+    work = []
+    for p in range(nprod):
+        ops, ended = [], set()
+        for i in range(rng.randrange(2, max_ops + 1)):
+            rec = rng.randrange(nrec)
+            x = rng.random()
+            if rec in ended and x < 0.6 and rng.random() > after:
+                free = [r for r in range(nrec) if r not in ended]
+                if free:
+                    rec = rng.choice(free)
+                else:
+                    x = 0.6 + 0.4 * rng.random()        # everything ended: only save / abort again
+            fail = rng.randrange(1, 5) if rng.random() < pfail else 0
+            if x < 0.4:
+                ops.append(op_set(rec, rng.randrange(3), p, i, fail))
+            elif x < 0.52:
+                ops.append(op_meta(rec, rng.sample(range(3), rng.randrange(1, 3)), p, i, fail))
+            elif x < 0.6:
+                ops.append(op_metamut(rec, rng.sample(range(3), rng.randrange(1, 3)), rng.randrange(3), p, i, fail))
+            elif x < 0.8:
+                ops.append(op_save(rec, fail))
+                ended.add(rec)
+            else:
+                ops.append(op_abort(rec))
+                ended.add(rec)
+        work.append(ops)
+    return normalise(work)
+
+
+def abort_cases(rng, quick):
+    light, heavy = [], []
+    for work, fmax, cpl in [(W_AB_AFTER, 3, (0, 2)), (W_AB_BEFORE, 3, (0, 2)), (W_AB_ONLY, 3, (0, 2)), (W_AB_TWICE, 2, (0,)),
+                            (W_AB_OTHER, 3, (0, 2)), (W_AB_THREE, 1, (0, 3)), (W_AB_MIX, 1, (0,))]:
+        for k, toks in enumerate(token_schedules(work, fmax, cpl)):
+            if quick and k % 3 and nops(work) > 3:
+                continue
+            light.append(mk(work, dict(kind="tokens", tokens=toks), "abort-exhaustive-tokens"))
+    for _ in range(200 if quick else 2000):
+        w = rand_abort_work(rng, rng.randrange(1, 4), 6, rng.randrange(1, 4))
+        light.append(mk(w, dict(kind="tokens", tokens=rand_tokens(rng, w)), "abort-random-tokens"))
+    heavy.append(mk(W_AB_OTHER, dict(kind="explore", gran="line", budget=1, max_runs=500 if quick else 8000), "abort-explore-line"))
+    heavy.append(mk(W_AB_MIX, dict(kind="explore", gran="atomic", budget=1, max_runs=500 if quick else 8000), "abort-explore-atomic"))
+    for j in range(4 if quick else 40):
+        w = rand_abort_work(rng, 1 + j % 3, 5, 1 + (j + 1) % 3)
+        gran = "line" if j % 2 else "atomic"
+        heavy.append(mk(w, dict(kind="random", gran=gran, seed=rng.randrange(10**6), runs=30 if quick else 120,
+                                p=rng.choice([0.05, 0.15, 0.3])), "abort-random-" + gran))
+    return light, heavy
+
+
 def generate(rng, tier):
     quick = tier == "quick"
     light, heavy = [], []
@@ -575,6 +660,19 @@ def generate(rng, tier):
     walks = shape_walks(rng, quick)
     for j, c in enumerate(walks):
         heavy.insert(min(len(heavy), 3 + 5 * j), c)
+    # 8. abort_recording before / after / instead of the save, by the same or another caller (drawn after the streams above)
+    ab_light, ab_heavy = abort_cases(rng, quick)
+    light += ab_light
+    for j, c in enumerate(ab_heavy):
+        heavy.insert(min(len(heavy), 5 + 4 * j), c)
+    # 9. very long backlogs behind a stalled storage (implementation only): the flusher picked up the first requests and
+    #    sits inside a storage call while more than 10^4 (thorough: also 2^14, 2^15) requests arrive; every one of them has
+    #    to return without the flusher moving ("callers never wait for the wrapped storage")
+    for j, (lo, hi) in enumerate([(10300, 11500)] if quick else [(10300, 11500), (16500, 17500), (33000, 34000)]):
+        c = long_case(rng, "stalled-storage", lo, hi, 1 + (j + 1) % 3, 2)
+        c["model"] = False
+        c["label"] = "long-history-stalled-storage-huge"
+        heavy.insert(min(len(heavy), 2 + 7 * j), c)
     # spread the heavy cases evenly (the driver is sharded over contiguous chunks), the explorations - heaviest - first
     expl = [c for c in heavy if c["sched"]["kind"] == "explore"]
     expl.sort(key=lambda c: -c["sched"]["max_runs"] * {"atomic": 1, "line": 2, "opcode": 2}[c["sched"]["gran"]])
@@ -621,6 +719,8 @@ def g_op(i, op):
         kind = "(AddMeta %s)" % g_dict(op["items"])
     elif op["k"] == "metamut":
         kind = "(AddMetaMut %s %s %s)" % (g_dict(op["items"]), gN(op["mkey"]), g_val(op["mval"]))
+    elif op["k"] == "abort":
+        kind = "Abort"
     else:
         kind = "Save"
     return "(Op %s %s %s %s)" % (gnat(i), gnat(op["rec"]), kind, gbool(bool(op.get("fail"))))
@@ -637,7 +737,7 @@ def g_run(r):
         t = ev[0]
         if t == "B":
             started[ev[1]] = ev[2]
-        elif t == "P":
+        elif t == "P" or t == "Q":      # Q: an abort_recording call (carried out at the caller, no lock)
             tr.append("CProduce %s" % gnat(ev[1]))
         elif t == "R":
             tr.append("CReject %s" % gnat(ev[1]))
@@ -700,20 +800,30 @@ def run_failures(case, r):
             add("storage-call-on-caller-thread", "a wrapped storage call ran on a caller thread")
         elif v == "caller-blocked-by-storage-call":
             add("caller-blocked-by-storage-call", "a caller had to wait for the lock while its holder was inside a wrapped storage call")
+        elif v == "caller-waits-for-storage":
+            add("caller-waits-for-storage", "a caller's request did not return (it kept waiting / polling) while the flusher "
+                "was inside a wrapped storage call: callers wait for the wrapped storage")
+        elif v == "caller-call-does-not-return":
+            add("caller-call-does-not-return", "a caller's request kept waiting / polling for something only the flusher "
+                "provides (the request cannot finish by itself)")
         elif v == "thread-alive-after-close":
             add("thread-alive-after-close", "close() returned while a thread of the cassette was still running")
     if any(p in ("deadlock", "self-deadlock", "hang", "step-limit") for p in r.get("problems", [])):
         return fails
     calls = r["calls"]
-    accepted = [(p, i) for p, ops in enumerate(calls) for i, c in enumerate(ops) if c == "ok"]
+    # (an abort is carried out at the caller - it closes the recording object, tape_cassette.py:59 - and never goes to the
+    # storage: "accepted" are the requests that have to reach the wrapped cassette)
+    accepted = [(p, i) for p, ops in enumerate(calls) for i, c in enumerate(ops) if c == "ok" and work[p][i]["k"] != "abort"]
+    aborted = {work[p][i]["rec"] for p, ops in enumerate(calls) for i, c in enumerate(ops)
+               if c == "ok" and work[p][i]["k"] == "abort"}
     for p, ops in enumerate(calls):
         for i, c in enumerate(ops):
             if c is None:
                 add("request-not-issued", "request %s never ran" % ((p, i),))
             elif c.startswith("raised:"):
                 add("request-raised", "request %s %s raised %s at the caller" % ((p, i), work[p][i], c[7:]))
-            elif c == "refused" and work[p][i]["k"] == "save":
-                add("request-raised", "save request %s raised AssertionError at the caller" % ((p, i),))
+            elif c == "refused" and work[p][i]["k"] in ("save", "abort"):
+                add("request-raised", "%s request %s raised AssertionError at the caller" % (work[p][i]["k"], (p, i)))
     app = [(p, i) for p, i, _ in r["applied"]]
     app_set, acc_set = set(app), set(accepted)
     lost = [x for x in accepted if x not in app_set]
@@ -789,6 +899,15 @@ def run_failures(case, r):
     # contents against the synchronous twin
     tw = r["twin"]
     late = r.get("twin_late")
+    if aborted:
+        # synchronously abort_recording closes the wrapped recording object itself, asynchronously the AsyncRecording in
+        # front of it: the closed flag of an aborted recording OBJECT is not part of what is stored - its contents are
+        def mask(live):
+            return [[i, d, m, None if i in aborted else c] for i, d, m, c in live]
+        r = dict(r, live=mask(r["live"]))
+        tw = dict(tw, live=mask(tw["live"]))
+        if late is not None:
+            late = dict(late, live=mask(late["live"]))
     if late is not None and (r["saved"], r["live"]) != (tw["saved"], tw["live"]) and \
             (r["saved"], r["live"]) == (late["saved"], late["live"]):
         # F12 (repaired by /repo ba7c02c; a revert shows up here): exactly the difference explained by "the dict is
@@ -814,7 +933,7 @@ def run_failures(case, r):
         save_begin = {}
         for q, ops in enumerate(work):
             for j, op in enumerate(ops):
-                if op["k"] == "save" and (q, j) in begin:
+                if op["k"] in ("save", "abort") and (q, j) in begin:
                     save_begin[op["rec"]] = min(save_begin.get(op["rec"], 10**9), begin[(q, j)])
         for p, ops in enumerate(calls):
             for i, c in enumerate(ops):
@@ -822,7 +941,7 @@ def run_failures(case, r):
                     rec = work[p][i]["rec"]
                     ok = save_begin.get(rec, 10**9) < end.get((p, i), -1)
                     if not ok:
-                        add("refused-without-reason", "write %s refused although no save of recording %d was requested" % ((p, i), rec))
+                        add("refused-without-reason", "write %s refused although no save / abort of recording %d was requested" % ((p, i), rec))
     return fails
 
 
@@ -845,10 +964,11 @@ def backlog_at_close(trace):
 
 
 def _bucket(n):
-    for lim, name in ((10, "<10"), (100, "10-99"), (1001, "100-1000"), (2049, "1001-2048"), (4097, "2049-4096")):
+    for lim, name in ((10, "<10"), (100, "10-99"), (1001, "100-1000"), (2049, "1001-2048"), (4097, "2049-4096"),
+                      (10001, "4097-10000"), (16385, "10001-16384")):
         if n < lim:
             return name
-    return "4097+"
+    return "16385+"
 
 
 def _key(case):
@@ -1005,10 +1125,31 @@ def features(case):
     for ops in w:
         seen = set()
         for op in ops:
-            if op["k"] != "save" and op["rec"] in seen:
+            if op["k"] not in ("save", "abort") and op["rec"] in seen:
                 f.add("write-after-own-save")
             if op["k"] == "save":
                 seen.add(op["rec"])
+    if "abort" in kinds:
+        flat = [op for ops in w for op in ops]
+        for rec in {op["rec"] for op in flat if op["k"] == "abort"}:
+            if not any(op["k"] == "save" and op["rec"] == rec for op in flat):
+                f.add("abort-instead-of-save")
+        for ops in w:
+            st = {}
+            for op in ops:
+                if op["k"] == "abort":
+                    f.add("abort-after-save(same caller)" if st.get(op["rec"]) == "save" else "abort")
+                    st.setdefault(op["rec"], "abort")
+                elif op["k"] == "save":
+                    if st.get(op["rec"]) == "abort":
+                        f.add("save-after-abort(same caller)")
+                    st[op["rec"]] = "save"
+                elif st.get(op["rec"]) == "abort":
+                    f.add("write-after-own-abort")
+        if len(w) > 1:
+            f.add("abort-with-other-callers")
+    if case.get("label", "").startswith("abort"):
+        f.add("stream:" + case["label"])
     f |= shape_features(w)
     if case.get("label", "").startswith("value-shapes"):
         f.add("stream:" + case["label"])
@@ -1026,7 +1167,7 @@ def shape_features(work):
     for ops in work:
         last = {}
         for op in ops:
-            if op["k"] == "save":
+            if op["k"] in ("save", "abort"):
                 continue
             items = [[op["key"], op["val"]]] if op["k"] == "set" else op["items"]
             for k, v in items:
@@ -1052,7 +1193,7 @@ def nontrivial(case):
 
 MANIFEST = dict(
     design_ref='6/C12',
-    text='Coq theorems over ALL reachable states of a producer/buffer/flusher transition system (any number of producers, any workloads of set_data/add_metadata/save with failing storage calls, any interleaving, any timer firing pattern): invariant applied++batch++buffer = enqueue order; when the flusher is done every accepted request was applied exactly once in enqueue order and the wrapped cassette and every outcome equal the synchronous run (sync_apply), also when callers keep changing a metadata dict after passing it (legacy defect F12 refuted with a witness, repaired by ba7c02c); failure does not block; producers blocked only inside the two-statement swap; termination within |buffer|+|batch|+8 flusher steps after close. Model tied to /repo on every run by driving the REAL AsyncRecordOnlyTapeCassette/AsyncRecording under deterministic schedules (cooperative scheduler over substituted Thread/Lock/Event, re-entrant spy cassette, sys.settrace line stepping): exhaustive token interleavings of small workloads, bounded-preemption exhaustive exploration at atomic and source-line granularity, seeded random walks, and long histories (10^2..10^4 requests, 1-3 producers) under schedules that leave hundreds to thousands of requests pending at close() or in one flush batch (timer never fires, flusher inside a storage call while the burst arrives, one big flush midway, rare timer), and value-shape workloads (recorded values are Python values with their types, val := pyval: None, False/0/0.0/-0.0, True/1/1.0, ==-equal containers, empty containers, the same value written again - every ordered overwrite pair and every first write, unflushed and flushed in between, plus random shaped workloads); Coq replays every implementation trace (each step must be enabled) and compares applied order, outcomes, stored recordings. ast gate: every buffer access under the lock. Direct predicate on the implementation: exactly-once, per-producer and real-time order, contents == synchronous twin compared type-exactly (True is not 1, None is not "absent"), no storage call on caller threads, callers never blocked by a storage call, no deadlock; thorough adds free-running real threads (also bursts of thousands of requests with a flush interval longer than the session).',
+    text='Coq theorems over ALL reachable states of a producer/buffer/flusher transition system (any number of producers, any workloads of set_data/add_metadata/save with failing storage calls, any interleaving, any timer firing pattern): invariant applied++batch++buffer = enqueue order; when the flusher is done every accepted request was applied exactly once in enqueue order and the wrapped cassette and every outcome equal the synchronous run (sync_apply), also when callers keep changing a metadata dict after passing it (legacy defect F12 refuted with a witness, repaired by ba7c02c); failure does not block; producers blocked only inside the two-statement swap; termination within |buffer|+|batch|+8 flusher steps after close. Model tied to /repo on every run by driving the REAL AsyncRecordOnlyTapeCassette/AsyncRecording under deterministic schedules (cooperative scheduler over substituted Thread/Lock/Event, re-entrant spy cassette, sys.settrace line stepping): exhaustive token interleavings of small workloads, bounded-preemption exhaustive exploration at atomic and source-line granularity, seeded random walks, and long histories (10^2..10^4 requests, 1-3 producers) under schedules that leave hundreds to thousands of requests pending at close() or in one flush batch (timer never fires, flusher inside a storage call while the burst arrives, one big flush midway, rare timer), and value-shape workloads (recorded values are Python values with their types, val := pyval: None, False/0/0.0/-0.0, True/1/1.0, ==-equal containers, empty containers, the same value written again - every ordered overwrite pair and every first write, unflushed and flushed in between, plus random shaped workloads); Coq replays every implementation trace (each step must be enabled) and compares applied order, outcomes, stored recordings. ast gate: every buffer access under the lock. Direct predicate on the implementation: exactly-once, per-producer and real-time order, contents == synchronous twin compared type-exactly (True is not 1, None is not "absent"), no storage call on caller threads, callers never blocked by a storage call - also not by a bounded buffer: a burst of > 10^4 requests behind a storage call that never returns must be accepted without the flusher moving (caller-waits-for-storage) -, no deadlock; abort_recording (model: Abort request, carried out at the caller, never blocked, enqueues nothing, wrapped cassette untouched - C12_abort_*; workloads whose recordings end by save, abort, both in either order, by another caller: what was requested before the abort, the save included, is still applied and the stored recordings equal the synchronous twin that aborts too); thorough adds free-running real threads (also bursts of thousands of requests with a flush interval longer than the session).',
     note='Trusted: Coq kernel + vm_compute; hand-written model; atomic-step reduction (argued, gated by the ast lock check); the cooperative scheduler and trace projection of the driver; join timeout expiry, daemon-thread death at interpreter exit and true parallel lock behaviour are runtime (partial).',
     technique='Coq proof (invariant over a step relation, refinement to a synchronous fold) + trace-replay correspondence by vm_compute + systematic schedule exploration of the real code',
 )
